@@ -88,20 +88,35 @@ func Repr(v any, indent int) string {
 
 func reprMap(it hashmap.Iterator, n, indent int) string {
 	builder := NewMapReprBuilder(indent)
-	// Collect all the key-value pairs.
-	pairs := make([][2]any, 0, n)
+	// Collect all the key-value pairs, along with the representation of the
+	// keys.
+	type reprPair struct {
+		key, value any
+		keyRepr    string
+	}
+	pairs := make([]reprPair, 0, n)
 	for ; it.HasElem(); it.Next() {
 		k, v := it.Elem()
-		pairs = append(pairs, [2]any{k, v})
+		pairs = append(pairs, reprPair{k, v, Repr(k, indent+1)})
 	}
 	// Sort the pairs. See the godoc of CmpTotal for the sorting algorithm.
+	// Keys that CmpTotal considers equal (like an exact and an inexact number
+	// of the same value, or any two maps) are ordered by their
+	// representation, so that the result doesn't depend on the iteration
+	// order of the map, which may depend on the order of insertion.
 	sort.Slice(pairs, func(i, j int) bool {
-		return CmpTotal(pairs[i][0], pairs[j][0]) == CmpLess
+		switch CmpTotal(pairs[i].key, pairs[j].key) {
+		case CmpLess:
+			return true
+		case CmpEqual:
+			return pairs[i].keyRepr < pairs[j].keyRepr
+		default:
+			return false
+		}
 	})
 	// Print the pairs.
 	for _, pair := range pairs {
-		k, v := pair[0], pair[1]
-		builder.WritePair(Repr(k, indent+1), indent+2, Repr(v, indent+2))
+		builder.WritePair(pair.keyRepr, indent+2, Repr(pair.value, indent+2))
 	}
 	return builder.String()
 }
